@@ -28,13 +28,13 @@ pub const CLUSTER_PROPS: &[PropSpec] = &[
     PropSpec {
         id: "C01",
         profiles: &[Mixed, Crash, Replication, Membership, Snapshot, Election],
-        quick_execs: 60_000,
+        quick_execs: 240_000,
         floors: &[
-            ("c01.commit_reports", 200_000),
-            ("c01.handoff_reports", 100_000),
-            ("c01.snapshot_reports", 500),
-            ("c02.leaders_elected", 20_000),
-            ("crashes", 20_000),
+            ("c01.commit_reports", 600000),
+            ("c01.handoff_reports", 300000),
+            ("c01.snapshot_reports", 1500),
+            ("c02.leaders_elected", 60000),
+            ("crashes", 60000),
         ],
         rule: "cluster engine; a case is a commit-index advance / apply hand-off / snapshot report checked against the ghost committed log; distinct by (range length, channel, role, term) fingerprint",
         counter_prefixes: &["c01.", "crash", "net.", "restarts", "compactions", "entries_applied"],
@@ -42,20 +42,20 @@ pub const CLUSTER_PROPS: &[PropSpec] = &[
     PropSpec {
         id: "C02",
         profiles: &[Election, Crash, Membership, Mixed, Transfer],
-        quick_execs: 60_000,
-        floors: &[("c02.leaders_elected", 40_000), ("crashes", 20_000), ("c09.conf_entries_applied", 3_000)],
+        quick_execs: 240_000,
+        floors: &[("c02.leaders_elected", 120000), ("crashes", 60000), ("c09.conf_entries_applied", 9000)],
         rule: "cluster engine, election-heavy profiles; a case is a node observed in the leader role checked against leader_of[term]; distinct by abstract state of the new leader (role history, log tail vs. commit, configuration shape)",
         counter_prefixes: &["c02.", "c03.requests", "c06.vote_grants", "crash", "restarts", "c09.conf_entries_applied", "c16.candidacies"],
     },
     PropSpec {
         id: "C03",
         profiles: &[Election, Crash, Snapshot, Mixed],
-        quick_execs: 60_000,
+        quick_execs: 240_000,
         floors: &[
-            ("c03.leader_starts_checked_nonempty", 10_000),
-            ("c03.grants_checked", 100_000),
-            ("c03.requests_checked", 200_000),
-            ("c03.vote_commit_fast_forwards", 100),
+            ("c03.leader_starts_checked_nonempty", 30000),
+            ("c03.grants_checked", 300000),
+            ("c03.requests_checked", 600000),
+            ("c03.vote_commit_fast_forwards", 300),
         ],
         rule: "cluster engine; cases are (a) leader starts checked against every entry committed by an earlier-term leader, (b) vote / pre-vote grants checked against the voter's own tail, (c) vote requests checked against the sender's tail; distinct by (message kind, relative tail position, role, term relation)",
         counter_prefixes: &["c03.", "c02.", "crash", "compactions"],
@@ -63,15 +63,15 @@ pub const CLUSTER_PROPS: &[PropSpec] = &[
     PropSpec {
         id: "C04",
         profiles: &[Replication, Crash, Mixed, Membership, Singleton],
-        quick_execs: 60_000,
+        quick_execs: 240_000,
         floors: &[
-            ("c04.leader_commit_advances", 50_000),
-            ("c04.leader_commit_advance_joint", 2_000),
-            ("c04.leader_commit_advance_unpersisted_tail", 3_000),
-            ("c04.nonleader_advance.append", 30_000),
-            ("c04.nonleader_advance.heartbeat", 5_000),
-            ("c04.nonleader_advance.snapshot", 200),
-            ("c04.nonleader_advance.vote_fast_forward", 200),
+            ("c04.leader_commit_advances", 150000),
+            ("c04.leader_commit_advance_joint", 6000),
+            ("c04.leader_commit_advance_unpersisted_tail", 9000),
+            ("c04.nonleader_advance.append", 90000),
+            ("c04.nonleader_advance.heartbeat", 15000),
+            ("c04.nonleader_advance.snapshot", 600),
+            ("c04.nonleader_advance.vote_fast_forward", 600),
         ],
         rule: "cluster engine with synchronous and asynchronous persistence; a case is a commit-index advance judged against the durable images of all nodes (leaders) or against what leaders committed (non-leaders); distinct by (holder count, configuration, operation, distance of commit from log end / persisted index)",
         counter_prefixes: &["c04.", "fsyncs", "crash", "c07.readys_with_two"],
@@ -79,24 +79,24 @@ pub const CLUSTER_PROPS: &[PropSpec] = &[
     PropSpec {
         id: "C05",
         profiles: &[Replication, Crash, Election, Mixed, Flow],
-        quick_execs: 60_000,
-        floors: &[("c05.entry_chain_checks", 500_000), ("c05.truncating_appends", 2_000), ("c14.full_log_comparisons", 50_000)],
+        quick_execs: 240_000,
+        floors: &[("c05.entry_chain_checks", 1500000), ("c05.truncating_appends", 6000), ("c14.full_log_comparisons", 150000)],
         rule: "cluster engine; a case is an entry entering some node's log (unstable included) checked against the canonical (index, term) -> (payload, predecessor term) map, plus leader append-only and committed-prefix checks; distinct by (replaced?, role, position relative to persisted/committed/offset, term relation, operation)",
         counter_prefixes: &["c05.", "c14.", "crash"],
     },
     PropSpec {
         id: "C06",
         profiles: &[Crash, Singleton, Mixed, Election, Replication],
-        quick_execs: 60_000,
+        quick_execs: 240_000,
         floors: &[
-            ("c06.messages_released", 1_000_000),
-            ("c06.vote_grants_released", 30_000),
-            ("c06.append_acks_released", 100_000),
-            ("c06.restart_cross_checks", 30_000),
-            ("crash@after_ready", 2_000),
-            ("crash@after_write", 2_000),
-            ("crash@after_fsync", 500),
-            ("crash@after_send_persisted", 500),
+            ("c06.messages_released", 3000000),
+            ("c06.vote_grants_released", 90000),
+            ("c06.append_acks_released", 300000),
+            ("c06.restart_cross_checks", 90000),
+            ("crash@after_ready", 6000),
+            ("crash@after_write", 6000),
+            ("crash@after_fsync", 1500),
+            ("crash@after_send_persisted", 1500),
         ],
         rule: "cluster engine, crash at every pipeline sub-step; a case is a message released by the contract-abiding application judged against the durable image (immediate / light) or what was handed out for persistence (gated), plus restart cross-checks; distinct by (message type, class, reject, durable-term relation, app mode, group shape)",
         counter_prefixes: &["c06.", "crash", "restarts", "fsyncs"],
@@ -104,14 +104,14 @@ pub const CLUSTER_PROPS: &[PropSpec] = &[
     PropSpec {
         id: "C07",
         profiles: &[Mixed, Replication, Crash, Snapshot, Flow, Singleton],
-        quick_execs: 60_000,
+        quick_execs: 240_000,
         floors: &[
-            ("c07.readys", 1_000_000),
-            ("c07.handoffs", 200_000),
-            ("c07.readys_with_snapshot", 300),
-            ("c07.readys_with_two_or_more_outstanding", 50_000),
-            ("c07.forced_empty_readys", 1_000),
-            ("c07.has_ready_evaluations", 1_000_000),
+            ("c07.readys", 3000000),
+            ("c07.handoffs", 600000),
+            ("c07.readys_with_snapshot", 900),
+            ("c07.readys_with_two_or_more_outstanding", 150000),
+            ("c07.forced_empty_readys", 3000),
+            ("c07.has_ready_evaluations", 3000000),
         ],
         rule: "cluster engine, app modes advance / advance_append+lazy apply / advance_append_async+batched on_persist_ready; a case is a Ready or LightReady checked against the per-node reference model; distinct by (which components are present, sizes, role, outstanding readies, app mode)",
         counter_prefixes: &["c07.", "crash", "restarts"],
@@ -119,12 +119,12 @@ pub const CLUSTER_PROPS: &[PropSpec] = &[
     PropSpec {
         id: "C08",
         profiles: &[Reads],
-        quick_execs: 60_000,
+        quick_execs: 240_000,
         floors: &[
-            ("c08.reads_issued", 100_000),
-            ("c08.read_states_returned", 20_000),
-            ("c08.forwarded_reads_answered", 3_000),
-            ("c08.reads_issued_before_leader_committed_in_term", 2_000),
+            ("c08.reads_issued", 300000),
+            ("c08.read_states_returned", 60000),
+            ("c08.forwarded_reads_answered", 9000),
+            ("c08.reads_issued_before_leader_committed_in_term", 6000),
         ],
         rule: "cluster engine, reads profile (Safe mode only is judged); a case is a returned ReadState matched to its unique request context and compared with the highest commit index shown anywhere at issue time; distinct by (issued on leader?, stale leader?, fresh leader?, index vs. G_issue, answering role, configuration)",
         counter_prefixes: &["c08.", "crash"],
@@ -132,15 +132,15 @@ pub const CLUSTER_PROPS: &[PropSpec] = &[
     PropSpec {
         id: "C09",
         profiles: &[Membership, Mixed, Snapshot, Transfer],
-        quick_execs: 60_000,
+        quick_execs: 240_000,
         floors: &[
-            ("c09.conf_proposals_on_leader", 20_000),
-            ("c09.conf_proposals_replaced_by_empty", 5_000),
-            ("c09.conf_entries_applied", 10_000),
-            ("c09.enter_joint_applied", 1_000),
-            ("c09.leave_joint_applied", 1_000),
-            ("c09.elections_started", 50_000),
-            ("c09.conf_at_applied_checks", 50_000),
+            ("c09.conf_proposals_on_leader", 60000),
+            ("c09.conf_proposals_replaced_by_empty", 15000),
+            ("c09.conf_entries_applied", 30000),
+            ("c09.enter_joint_applied", 3000),
+            ("c09.leave_joint_applied", 3000),
+            ("c09.elections_started", 150000),
+            ("c09.conf_at_applied_checks", 150000),
         ],
         rule: "cluster engine, membership profile (V1/V2, joint Auto/Implicit/Explicit, illegal proposals, unknown ids); cases are conf-change proposals on leaders, election starts, applied changes compared across nodes and with the reference algebra; distinct by (pending entries, joint?, leave?, resulting configuration, operation)",
         counter_prefixes: &["c09.", "crash", "c15.installs"],
@@ -148,15 +148,15 @@ pub const CLUSTER_PROPS: &[PropSpec] = &[
     PropSpec {
         id: "C10",
         profiles: &[Mixed, Flow, Snapshot, Crash, Membership, Transfer, Replication],
-        quick_execs: 40_000,
+        quick_execs: 160_000,
         floors: &[
-            ("c10.fair_suffixes", 15_000),
-            ("c10.heal_with_paused_probe", 3_000),
-            ("c10.heal_with_full_window", 500),
-            ("c10.heal_with_joint_conf", 1_000),
-            ("c10.heal_with_transfer_pending", 100),
-            ("c10.heal_with_pending_snapshot", 30),
-            ("c10.heal_with_follower_requesting_snapshot", 100),
+            ("c10.fair_suffixes", 45000),
+            ("c10.heal_with_paused_probe", 9000),
+            ("c10.heal_with_full_window", 1500),
+            ("c10.heal_with_joint_conf", 3000),
+            ("c10.heal_with_transfer_pending", 300),
+            ("c10.heal_with_pending_snapshot", 90),
+            ("c10.heal_with_follower_requesting_snapshot", 300),
         ],
         rule: "cluster engine; a case is a (fault prefix, fair suffix) pair: faults stop, fair schedule, convergence and a fresh proposal applied everywhere within a bound of election timeouts (logical time); distinct by abstract cluster state at heal time (roles, log gaps, degraded conditions, in-flight messages)",
         counter_prefixes: &["c10.", "crash", "net."],
@@ -164,14 +164,14 @@ pub const CLUSTER_PROPS: &[PropSpec] = &[
     PropSpec {
         id: "C13",
         profiles: &[Flow, Replication, Mixed, Snapshot],
-        quick_execs: 60_000,
+        quick_execs: 240_000,
         floors: &[
-            ("c13.appends_inspected", 300_000),
-            ("c13.heartbeats_inspected", 200_000),
-            ("c13.window_full_observed", 50_000),
-            ("c13.probe_sends", 50_000),
-            ("c13.calls_in_snapshot_state", 3_000),
-            ("c13.proposals_refused_for_size", 5_000),
+            ("c13.appends_inspected", 900000),
+            ("c13.heartbeats_inspected", 600000),
+            ("c13.window_full_observed", 150000),
+            ("c13.probe_sends", 150000),
+            ("c13.calls_in_snapshot_state", 9000),
+            ("c13.proposals_refused_for_size", 15000),
         ],
         rule: "cluster engine, flow profile (windows 1/2/4 resized at run time, tiny/huge max_size_per_msg, max_uncommitted_size 64/256); cases are emitted appends / heartbeats and proposal admissions; distinct by (message shape, commit relation, batching, refusal reason)",
         counter_prefixes: &["c13.", "net.duplicated"],
@@ -179,15 +179,15 @@ pub const CLUSTER_PROPS: &[PropSpec] = &[
     PropSpec {
         id: "C15",
         profiles: &[Snapshot, Membership, Mixed],
-        quick_execs: 60_000,
+        quick_execs: 240_000,
         floors: &[
-            ("c15.snapshots_emitted", 3_000),
-            ("c15.installs", 1_500),
-            ("c15.ignored_non_member", 100),
-            ("c15.fast_forward_only", 30),
-            ("c15.installs_joint_conf", 100),
-            ("c15.installs_requested", 500),
-            ("compactions", 10_000),
+            ("c15.snapshots_emitted", 9000),
+            ("c15.installs", 4500),
+            ("c15.ignored_non_member", 300),
+            ("c15.fast_forward_only", 90),
+            ("c15.installs_joint_conf", 300),
+            ("c15.installs_requested", 1500),
+            ("compactions", 30000),
         ],
         rule: "cluster engine, snapshot profile (aggressive compaction, lagging/blank/restarting followers, lost/duplicated/stale MsgSnapshot, status reports in any order); cases are snapshot install decisions, emitted snapshots and status reports; distinct by (restored?, member?, matching?, requested?, stale?, joint?, role)",
         counter_prefixes: &["c15.", "compactions", "storage.", "c01.snapshot"],
@@ -195,14 +195,14 @@ pub const CLUSTER_PROPS: &[PropSpec] = &[
     PropSpec {
         id: "C16",
         profiles: &[Lockstep, Election, Mixed, Crash],
-        quick_execs: 60_000,
+        quick_execs: 240_000,
         floors: &[
-            ("c16.prevote_requests_stepped", 100_000),
-            ("c16.prevote_requests_far_future", 3_000),
-            ("c16.prevote_requests_on_leader_or_candidate", 30_000),
-            ("c16.term_increases", 100_000),
-            ("c16.lockstep_windows", 5_000),
-            ("c16.lockstep_minority_campaigns", 10_000),
+            ("c16.prevote_requests_stepped", 300000),
+            ("c16.prevote_requests_far_future", 9000),
+            ("c16.prevote_requests_on_leader_or_candidate", 90000),
+            ("c16.term_increases", 300000),
+            ("c16.lockstep_windows", 15000),
+            ("c16.lockstep_minority_campaigns", 30000),
         ],
         rule: "cluster engine: (1) every pre-vote request stepped anywhere and every term increase classified by cause; (2) lock-step windows (pre_vote+check_quorum, majority in lock-step, adversarial minority); distinct by (receiver role, term relation, leader known, vote held, response) and window shapes",
         counter_prefixes: &["c16."],
@@ -210,14 +210,14 @@ pub const CLUSTER_PROPS: &[PropSpec] = &[
     PropSpec {
         id: "C17",
         profiles: &[Transfer, Membership, Mixed],
-        quick_execs: 60_000,
+        quick_execs: 240_000,
         floors: &[
-            ("c17.transfer_requests_on_leader", 20_000),
-            ("c17.timeout_now_checked", 3_000),
-            ("c17.proposals_during_transfer", 5_000),
-            ("c17.aborts_by_timeout", 500),
-            ("c17.transfer_requests_invalid_target", 3_000),
-            ("c17.completion_attempts", 3_000),
+            ("c17.transfer_requests_on_leader", 60000),
+            ("c17.timeout_now_checked", 9000),
+            ("c17.proposals_during_transfer", 15000),
+            ("c17.aborts_by_timeout", 1500),
+            ("c17.transfer_requests_invalid_target", 9000),
+            ("c17.completion_attempts", 9000),
         ],
         rule: "cluster engine, transfer profile; cases are MsgTimeoutNow emissions, proposals during transfer, abort timers, invalid targets, and bounded completion attempts in healthy clusters; distinct by (target kind, pending transfer, operation, log caught up?)",
         counter_prefixes: &["c17."],
@@ -225,8 +225,8 @@ pub const CLUSTER_PROPS: &[PropSpec] = &[
     PropSpec {
         id: "C20",
         profiles: &[Mixed, Crash, Membership, Snapshot, Reads, Transfer, Flow, Election, Replication, Singleton],
-        quick_execs: 80_000,
-        floors: &[("calls", 30_000_000), ("c20.local_offered", 50_000), ("c20.stranger_responses", 3_000), ("crashes", 100_000)],
+        quick_execs: 320_000,
+        floors: &[("calls", 90000000), ("c20.local_offered", 150000), ("c20.stranger_responses", 9000), ("crashes", 300000)],
         rule: "cluster engine, union of all profiles; every library call runs under catch_unwind; local message types and responses from non-members are offered to step and must be rejected without state change; distinct by (message type, receiver role, kind)",
         counter_prefixes: &["c20.", "calls", "crash", "restarts", "storage.", "net."],
     },
